@@ -88,6 +88,13 @@ def differs(base, cut):
     # the messages of one run must be a prefix of the other's, bodies likewise
     if bl != cl:
         return (f"limit-flips:{clabel if cl else blabel}", f"un-cut run: {blabel}; cut run: {clabel} (limit hit in one run only)")
+    if blabel.startswith("payload:") and clabel.startswith("payload:"):
+        # the parser failed a body but did not raise: nothing was lost with an exception, so what it goes on to
+        # deliver (or raise) from the bytes behind that body must not depend on where the reads fell
+        if [m[0] for m in bm] != [m[0] for m in cm]:
+            return ("after-failed-body:messages-differ", f"un-cut run delivers {[m[0][:2] for m in bm]}, cut run {[m[0][:2] for m in cm]}")
+        if (base["error"] or (None,) * 3)[1] != (cut["error"] or (None,) * 3)[1]:
+            return ("after-failed-body:error-differs", f"un-cut run ends with {base['error']}, cut run with {cut['error']}")
     n = min(len(bm), len(cm))
     for i in range(n):
         a, b = bm[i], cm[i]
